@@ -171,26 +171,26 @@ SDIR_EXTENSION = b"sdir"  # Sparse directory extension
 def _encode_varint(value: int) -> bytes:
     """Encode an integer using variable-width encoding.
 
-    Same format as used for OFS_DELTA pack entries and index v4 path compression.
-    Uses 7 bits per byte, with the high bit indicating continuation.
+    Same format as used for OFS_DELTA pack entries and index v4 path compression
+    (git's varint.c): 7 bits per byte, most significant group first, the high
+    bit indicating continuation, each continuation group biased by one.
 
     Args:
       value: Integer to encode
     Returns:
       Encoded bytes
     """
-    if value == 0:
-        return b"\x00"
-
-    result = []
+    # Git's "offset encoding" (varint.c): most significant group first, each
+    # continuation group is biased by one so that every value has exactly
+    # one encoding.
+    result = [value & 0x7F]
+    value >>= 7
     while value > 0:
-        byte = value & 0x7F  # Take lower 7 bits
+        value -= 1
+        result.append(0x80 | (value & 0x7F))
         value >>= 7
-        if value > 0:
-            byte |= 0x80  # Set continuation bit
-        result.append(byte)
 
-    return bytes(result)
+    return bytes(reversed(result))
 
 
 def _decode_varint(data: bytes, offset: int = 0) -> tuple[int, int]:
@@ -202,17 +202,17 @@ def _decode_varint(data: bytes, offset: int = 0) -> tuple[int, int]:
     Returns:
       tuple of (decoded_value, new_offset)
     """
-    value = 0
-    shift = 0
     pos = offset
-
-    while pos < len(data):
+    if pos >= len(data):
+        return 0, pos
+    byte = data[pos]
+    pos += 1
+    value = byte & 0x7F
+    while byte & 0x80 and pos < len(data):  # Continuation bit
+        # Git's offset encoding: big-endian groups, biased by one
         byte = data[pos]
         pos += 1
-        value |= (byte & 0x7F) << shift
-        shift += 7
-        if not (byte & 0x80):  # No continuation bit
-            break
+        value = ((value + 1) << 7) + (byte & 0x7F)
 
     return value, pos
 
@@ -299,7 +299,6 @@ def _decompress_path_from_stream(
     """
     # Decode the varint for remove_len by reading byte by byte
     remove_len = 0
-    shift = 0
     bytes_consumed = 0
 
     while True:
@@ -308,8 +307,11 @@ def _decompress_path_from_stream(
             raise ValueError("Unexpected end of file while reading varint")
         byte = byte_data[0]
         bytes_consumed += 1
-        remove_len |= (byte & 0x7F) << shift
-        shift += 7
+        if bytes_consumed == 1:
+            remove_len = byte & 0x7F
+        else:
+            # Git's offset encoding: big-endian groups, biased by one
+            remove_len = ((remove_len + 1) << 7) + (byte & 0x7F)
         if not (byte & 0x80):  # No continuation bit
             break
 
